@@ -68,7 +68,7 @@ RESTS = [
     ("L[L.c > Z]", "mix-filter"),
 ]
 
-MIX_HEADS = ("scalar", "scalar-expr", "series", "series-binop", "source", "elemwise")
+MIX_HEADS = ("scalar", "scalar-expr", "series", "series-binop")  # series + frame aligns the series with the columns: not a sensible continuation
 
 
 def configs(tier, cuts=("persist", "delayed", "legacy", "inplace")):
